@@ -337,3 +337,22 @@ def pair_unjudgeable(ra, rb):
         for s_, hs in r.get("rows", []):
             vals += hs
     return any((not math.isfinite(v)) or abs(v) > BIG for v in vals)
+
+
+def extras_horizon(B, case):
+    ocp = B.ocp
+    return [ocp.value(ocp.T), ocp.value(ocp.t0), ocp.value(ocp.tf)]
+
+
+def extra_horizon(B, case, ob, points, targets):
+    from . import nlp
+    out = []
+    for t in targets:
+        xs = nlp.solve_point(ob, t)
+        out.append([float(v) for v in ob.extra_f(xs, ob.pval)])
+    # starting values of the decision quantities (physical units)
+    init = np.array(ob.Phi(ob.x0, ob.pval)).reshape(-1).tolist() if ob.nx else []
+    names = []
+    for name, shape in ob.qnames:
+        names += [name] * (shape[0] * shape[1])
+    return {"horizon": out, "init": dict((n, v) for n, v in zip(names, init) if n in ("T", "t0"))}
